@@ -942,3 +942,82 @@ twin('C17', 'c17-twin-reordered-branches', CONCEXC,
      "        if not matched_specialisations:\n            return False\n        # except MultiError[KeyError, ...]\n        elif cls.inclusive:",
      "        if cls.inclusive and matched_specialisations:\n            return True\n        elif not matched_specialisations:\n            return False\n        elif cls.inclusive:",
      'redundant early branch')
+
+# ------------------------------------------------------------------------- C19
+RBASE = 'usim/py/resources/base.py'
+RCONT = 'usim/py/resources/container.py'
+RRES = 'usim/py/resources/resource.py'
+RSTORE = 'usim/py/resources/store.py'
+mutant('C19', 'c19-queue-rebound', RBASE,
+       "        # in-place: keeps the queue's type, e.g. a priority-sorted queue\n        del self.put_queue[:len(triggered)]",
+       "        self.put_queue = self.put_queue[len(triggered):]",
+       'Q', 'the original defect F9')
+mutant('C19', 'c19-filterstore-takewhile', RSTORE,
+       "    def _trigger_get(self, put_event):\n        # Every request has its own filter: a request that cannot be served\n        # must not block the requests queued behind it.\n        served = [event for event in self.get_queue if self._do_get(event)]\n        for event in served:\n            self.get_queue.remove(event)\n\n",
+       "",
+       'F FilterStore', 'the original defect F10')
+mutant('C19', 'c19-container-put-overflow', RCONT,
+       "        if self._capacity - self._level >= event.amount:",
+       "        if self._capacity - self._level > 0:",
+       'G Container._do_put', 'level exceeds capacity')
+mutant('C19', 'c19-container-put-strict', RCONT,
+       "        if self._capacity - self._level >= event.amount:",
+       "        if self._capacity - self._level > event.amount:",
+       'G Container._do_put', 'a put that exactly fills the container waits forever')
+mutant('C19', 'c19-container-get-negative', RCONT,
+       "        if self._level >= event.amount:\n            self._level -= event.amount",
+       "        if self._level > 0:\n            self._level -= event.amount",
+       'G Container._do_get', 'level below zero')
+mutant('C19', 'c19-store-capacity-off-by-one', RSTORE,
+       "    def _do_put(self, event: StorePut):\n        if len(self._items) < self._capacity:",
+       "    def _do_put(self, event: StorePut):\n        if len(self._items) <= self._capacity:",
+       'G Store._do_put', 'one item more than capacity')
+mutant('C19', 'c19-grant-without-succeed', RCONT,
+       "            self._level -= event.amount\n            event.succeed()\n            return True",
+       "            self._level -= event.amount\n            return True",
+       'S Container._do_get', 'content taken but the request never fires')
+mutant('C19', 'c19-succeed-but-false', RSTORE,
+       "            self._items.append(event.item)\n            event.succeed()\n            return True",
+       "            self._items.append(event.item)\n            event.succeed()\n            return False",
+       'S Store._do_put', 'served request stays queued and is served again')
+mutant('C19', 'c19-store-lifo', RSTORE,
+       "            item = self._items.popleft()", "            item = self._items.pop()",
+       'F Store', 'LIFO store')
+mutant('C19', 'c19-priostore-largest', RSTORE,
+       "            item = self._items.pop(0)", "            item = self._items.pop()",
+       'F PriorityStore', 'largest item first')
+mutant('C19', 'c19-preempt-equal', RRES,
+       "            if event.key < preempt_candidate.key:",
+       "            if event.key <= preempt_candidate.key:",
+       'Q PreemptiveResource', 'equal priority pre-empts')
+mutant('C19', 'c19-preempt-best-user', RRES,
+       "            preempt_candidate = self.users[-1]", "            preempt_candidate = self.users[0]",
+       'Q PreemptiveResource', 'the best user is evicted')
+mutant('C19', 'c19-preempt-not-full', RRES,
+       "        if len(self.users) >= self.capacity and event.preempt:",
+       "        if event.preempt:",
+       'Q PreemptiveResource', 'pre-emption although capacity is free')
+mutant('C19', 'c19-key-time-first', RRES,
+       "        self.key = (self.priority, self.time, not self.preempt)",
+       "        self.key = (self.time, self.priority, not self.preempt)",
+       'Q PriorityRequest.key', 'requests ordered by time before priority')
+mutant('C19', 'c19-cancel-always', RBASE,
+       "    def cancel(self):\n        if not self.triggered:\n            self.resource.put_queue.remove(self)",
+       "    def cancel(self):\n        self.resource.put_queue.remove(self)",
+       'S Put.cancel', 'cancelling a granted request raises ValueError')
+mutant('C19', 'c19-exit-no-release', RRES,
+       "        if self.triggered:\n            self.resource.release(self)\n        super().__exit__(exc_type, value, traceback)",
+       "        super().__exit__(exc_type, value, traceback)",
+       'S Request.__exit__', 'resource never released at the end of the with block')
+mutant('C19', 'c19-put-no-own-trigger', RBASE,
+       "        # ...and immediately check whether we could trigger\n        resource._trigger_put(None)",
+       "        pass",
+       'S Put.__init__', 'a put into free capacity is not served at once')
+mutant('C19', 'c19-resource-over-capacity', RRES,
+       "        if len(self.users) < self._capacity:\n            self.users.append(event)",
+       "        if len(self.users) <= self._capacity:\n            self.users.append(event)",
+       'G Resource._do_put', 'one user too many')
+twin('C19', 'c19-twin-guard-rearranged', RCONT,
+     "        if self._capacity - self._level >= event.amount:",
+     "        if self._level + event.amount <= self._capacity:",
+     'same inequality')
